@@ -148,6 +148,23 @@ func OpenIn(addr, target string) (*InStream, error) {
 	return &InStream{C: c}, nil
 }
 
+// OpenInBody is OpenIn for a client that sends a request body nobody asked
+// for and never finishes it (GET with Transfer-Encoding: chunked and one
+// chunk): legal HTTP, e.g. what `curl -T- -X GET` does with an idle stdin.
+func OpenInBody(addr, target string) (*InStream, error) {
+	c, err := hk.Dial(addr, "")
+	if err != nil {
+		return nil, err
+	}
+	c.SetDeadline(time.Now().Add(Bound))
+	if _, err := fmt.Fprintf(c, "GET %s HTTP/1.1\r\nHost: fake.shell\r\nTransfer-Encoding: chunked\r\n\r\n5\r\nhello\r\n", target); err != nil {
+		c.Close()
+		return nil, err
+	}
+	c.SetDeadline(time.Time{})
+	return &InStream{C: c}, nil
+}
+
 // Header reads the response header (the server sends it with the first flush).
 func (i *InStream) Header(d time.Duration) error {
 	i.C.SetReadDeadline(time.Now().Add(d))
